@@ -26,6 +26,7 @@
 #include <list>
 #include <memory>
 #include <unordered_map>
+#include <unordered_set>
 
 namespace eng {
 
@@ -182,6 +183,9 @@ struct Flags {
    bool fill_at_creation = false;  // C05: settable links are set inside the creating op and never re-assigned
    bool no_junk = false;
    bool no_locate = false;         // C17: the location-free twin of a program
+   bool complete_decls = false;    // C17: bit-fields, functions and templates get width / parameters / mapping inside the declaring op
+   bool reverse_prelude = false;   // C17: the constructor's prelude ops run in reverse order (their leaves get the opposite address order)
+   int heap_shuffle = 0;           // C17: before every op, allocate and free unrelated blocks (seeded by this value) so that later nodes reuse them out of order
    bool distinct_operands = true;
    int bulk_limit = 640;
    int print_weight_cap = 2000;
@@ -227,13 +231,13 @@ const Profile& profile(const std::string& name);
 std::vector<std::string> profile_names();
 
 struct World {
-   explicit World(const Flags& f, Findings fnd);
+   explicit World(const Flags& f, Findings fnd, std::shared_ptr<ipr::impl::Lexicon> shared = {});   // `shared`: build in an existing (pre-populated) Lexicon
    ~World();
    World(const World&) = delete;
 
    Flags flags;
    Findings findings;
-   std::unique_ptr<ipr::impl::Lexicon> lex;
+   std::shared_ptr<ipr::impl::Lexicon> lex;
    std::list<ipr::impl::Translation_unit> units;
    std::list<ipr::impl::Module> modules;
    ipr::impl::attr_factory attrs_f;
@@ -346,6 +350,7 @@ struct World {
    long junk_bytes = 0;
    std::vector<std::unique_ptr<char[]>> junk;
    std::vector<PrintRecord> prints;                      // outcomes of PRINT ops
+   std::unordered_set<const void*> acyclic_known;        // nodes known to reach no cycle; emptied by every op (the graph may have changed)
    std::unordered_map<const void*, std::size_t> expr_index;   // position in `exprs` (creation order)
    std::vector<std::string> trace;                       // human-readable op trace (for samples / diagnostics)
    std::map<std::string, long> counters;
@@ -433,7 +438,7 @@ struct Snapshot {
    std::vector<std::pair<Entity, Obs>> items;
 };
 void take_snapshot(World&, Snapshot&, std::size_t from = 0);
-void oracle_stability(World&, const Snapshot& before, bool growth_allowed, const char* when);   // C05
+void oracle_stability(World&, const Snapshot& before, bool growth_allowed, const char* when, const char* signature = "C05:snapshot-changed:");   // C05, C17
 void oracle_fresh_nodes(World&);                                                                // C05 generative distinctness
 
 std::string render_trace(const World&, std::size_t max_lines = 60);
